@@ -689,9 +689,7 @@ impl RuleHistory {
 //@ extract history.rs impl /^RuleHistory$/ fn get_file_state_vec
 //@ props C01 C02 C05
 //@ ret res
-//@ spec
-        ensures self.map().contains_key(*source_ticket) ==> res == Some(&self.map()[*source_ticket]),    //# O-D-history-lookup [C01,C02]
-            !self.map().contains_key(*source_ticket) ==> res is None,
+//@ spec-file shared/get_file_state_vec.spec
 //@ hint start
         broadcast use ticket_key_model;
 //@ end
